@@ -30,7 +30,7 @@ from core.report import Result
 from core.types import elem_type, members
 
 from .c09_eval import POISON, Env, Evaluator, Frame, NativeObj, Obj, Partial, Raised, Unknown, model
-from .common import callees_of, dotted, guard_formula, reachable_funcs, stmt_of, types_of, where
+from .common import callees_of, conds, dotted, guard_formula, reachable_funcs, stmt_of, types_of, where
 
 NXGRAPH = "pytestarch.eval_structure.networkxgraph"
 GRAPH_CLASS = "NetworkxGraph"
@@ -354,18 +354,58 @@ class Flattening:
         dependent = any(rows[(rnd, lim)][:2] != rows[(rnd, None)][:2] for rnd in range(len(NAME_POOL)) for lim in LIMITS)
         if not dependent:
             return {"verdict": "independent"}
+        cut_only = all(rows[(rnd, None)][0] == "raise" for rnd in range(len(NAME_POOL)))
+        if cut_only and self.unreachable_without_limit(f, e):
+            # the expression is only evaluated when a limit is set; what happens without one is decided by the code around it
+            pass
+        else:
+            cut_only = False
+            for rnd in range(len(NAME_POOL)):
+                base = rows[(rnd, None)]
+                if base[0] != "names" or any(x not in base[2] for x in base[1]):
+                    return {"verdict": "wrong-identity", "example": f"without a limit {self._show(base)} is produced from {base[2]}"}
         for rnd in range(len(NAME_POOL)):
             base = rows[(rnd, None)]
-            if base[0] != "names" or any(x not in base[2] for x in base[1]):
-                return {"verdict": "wrong-identity", "example": f"without a limit {self._show(base)} is produced from {base[2]}"}
-        for rnd in range(len(NAME_POOL)):
-            base = rows[(rnd, None)]
+            names = list(base[2]) if cut_only else base[1]
             for lim in LIMITS[1:]:
                 got = rows[(rnd, lim)]
-                want = [trunc(x, lim) for x in base[1]]
+                want = [trunc(x, lim) for x in names]
                 if got[0] != "names" or got[1] != want:
-                    return {"verdict": "wrong-cut", "example": f"with limit {lim}, {base[1]} becomes {self._show(got)} instead of {want}"}
-        return {"verdict": "flatten"}
+                    return {"verdict": "wrong-cut", "example": f"with limit {lim}, {names} becomes {self._show(got)} instead of {want}"}
+        return {"verdict": "cut-only" if cut_only else "flatten"}
+
+    def cond_without_limit(self, f: FuncInfo, c: ast.expr):
+        return self.cond_value(f, c, None)
+
+    def always_reached_with_limit(self, f: FuncInfo, node: ast.AST) -> bool:
+        """Every condition on the way to `node` holds whenever a limit is set (tabulated on the graph objects)."""
+        if self.build_error:
+            return False
+        return all(self.cond_value(f, c, lim) == pol for c, pol in conds(f, node) for lim in LIMITS[1:])
+
+    def cond_value(self, f: FuncInfo, c: ast.expr, lim: object):
+        """Truth value of a condition of the construction code on a graph with this limit (None if it cannot be determined)."""
+        env: dict[str, object] = {}
+        for n in ast.walk(c):
+            if isinstance(n, ast.Name) and isinstance(n.ctx, ast.Load):
+                if f.cls is not None and f.outer is None and not f.is_staticmethod and f.param_names and n.id == f.param_names[0]:
+                    env[n.id] = self.objs[lim]
+                elif n.id in f.param_names or any(isinstance(x, ast.Name) and x.id == n.id and isinstance(x.ctx, ast.Store) for x in own_nodes(f.node)):
+                    env.setdefault(n.id, POISON)
+        try:
+            t = self.ev._truth(self.ev.ev(c, Frame(f, f.module, Env(env))))
+        except (Unknown, Raised):
+            return None
+        return None if t is POISON else bool(t)
+
+    def unreachable_without_limit(self, f: FuncInfo, e: ast.AST) -> bool:
+        if self.build_error:
+            return False
+        for c, pol in conds(f, e):
+            t = self.cond_without_limit(f, c)
+            if t is not None and t != pol:
+                return True
+        return False
 
     @staticmethod
     def _show(row: tuple) -> str:
@@ -401,9 +441,19 @@ def rule_r1_r3(cx: Ctx, cons: list[FuncInfo]) -> Flow:
     seen_keys: set[str] = set()
     stray_limit = False
     n_flat = 0
+    cands.sort(key=lambda fe: (fe[0].fq, getattr(fe[1], "lineno", 0), getattr(fe[1], "col_offset", 0), -(getattr(fe[1], "end_lineno", 0) * 10000 + getattr(fe[1], "end_col_offset", 0))))
+    covered: set[int] = set()
+    guarded_updates: list[tuple[FuncInfo, ast.expr]] = []
     for f, e in cands:
+        if id(e) in covered:
+            continue
         v = fl.classify(f, e, flow1)
         verdict = v["verdict"]
+        if verdict not in ("independent",) and not (verdict == "unknown" and not fl.depends_on_limit(f, e, flow1)):
+            covered |= {id(x) for x in ast.walk(e)}
+        if verdict == "cut-only":
+            guarded_updates.append((f, e))
+            verdict = "flatten"
         tg = fl.targets(f, e)
         owner = tg[0] if len(tg) == 1 else f
         key = f"{owner.relpath}::{owner.qualname}" if len(tg) == 1 else repo.key(f, stmt_of(e)) + f" [{norm(e, 50)}]"
@@ -449,6 +499,28 @@ def rule_r1_r3(cx: Ctx, cons: list[FuncInfo]) -> Flow:
         )
         for w in inst[:2]:
             res.observe(f"C09.R3: `{header(stmt_of(w.node))}` in {w.fi.qualname} keeps per-graph state while flattening (the limit is fixed per graph; judged by the tabulation)")
+    # `if <limit is set>: v = <truncation of v>`: on the path around the statement there is no limit, so v is what the graph expects
+    idiom_nodes: set[int] = set()
+    for f, e in guarded_updates:
+        st = stmt_of(e)
+        tgt = st.targets[0] if isinstance(st, ast.Assign) and len(st.targets) == 1 else (st.target if isinstance(st, ast.AnnAssign) else None)
+        raw_loads = {x.id for x in ast.walk(e) if isinstance(x, ast.Name) and "RAW" in flow1.tags(x)}
+        if not (isinstance(tgt, ast.Name) and getattr(st, "value", None) is e and raw_loads == {tgt.id}):
+            continue
+        outer = st
+        while isinstance(parent(outer), ast.If):
+            outer = parent(outer)
+        if outer is st or parent(outer) is not f.node or not fl.always_reached_with_limit(f, st):
+            continue
+        stores = [x for x in own_nodes(f.node) if isinstance(x, ast.Name) and x.id == tgt.id and isinstance(x.ctx, ast.Store)]
+        inside = [x for x in stores if any(a is outer for a in ancestors(x))]
+        before = [x for x in stores if x not in inside and x.lineno < outer.lineno]
+        if len(inside) != 1 or len(before) + len(inside) != len(stores):
+            continue
+        idiom_nodes |= {id(x) for x in ast.walk(outer)}
+        for x in own_nodes(f.node):
+            if isinstance(x, ast.Name) and x.id == tgt.id and isinstance(x.ctx, ast.Load) and x.lineno > getattr(outer, "end_lineno", outer.lineno):
+                fl.flat_exprs[id(x)] = "flatten"
     # limit used in the construction code outside anything that was classified
     classified_nodes: set[int] = set()
     for f, e in cands:
@@ -457,7 +529,7 @@ def rule_r1_r3(cx: Ctx, cons: list[FuncInfo]) -> Flow:
     stray: list[tuple[FuncInfo, ast.AST]] = []
     for f in cons:
         for n in own_nodes(f.node):
-            if id(n) in classified_nodes:
+            if id(n) in classified_nodes or id(n) in idiom_nodes:
                 continue
             is_carrier = isinstance(n, ast.Attribute) and n.attr in fl.carriers and isinstance(n.ctx, ast.Load)
             is_limit = isinstance(n, ast.Name) and isinstance(n.ctx, ast.Load) and "LIMIT" in flow1.tags(n)
